@@ -52,7 +52,8 @@ let want c = match documented c with
   | l -> "panic " ^ String.concat "|" (List.map rname l)
 
 let tagname = function
-  | TPrimRemNegative -> "prim_rem_negative" | TPrimDivUnfit -> "prim_div_unfit" | TLnNonpositive -> "ln_nonpositive"
+  | TPrimRemNegative -> "prim_rem_negative" | TPrimDivUnfit -> "prim_div_unfit"
+  | TFloatOperandExceedsPrecision -> "float_operand_exceeds_precision"
   | TFareyLinear -> "farey_linear_steps" | TWithBasePrecisionZero -> "with_base_precision_zero"
   | TToPrimDigits -> "to_prim_quotient_digits"
 
@@ -149,6 +150,7 @@ let judge_f op a got =
   let y () = fv (List.nth r 2) (List.nth r 3) in
   let n2 () = z (List.nth r 2) in
   let k o x y n = KFloat (b, o, prec, x, y, n) in
+  let int_prec n = Zar.max prec (Zar.max Zar.one (ndig b n)) in
   (* the unwrap of an exponent conversion is an exponent overflow *)
   let over g = if g = [ "panic"; "UnwrapOutOfBounds" ] then [ "panic"; "ExponentOverflow" ] else g in
   let got = over got in
@@ -166,10 +168,13 @@ let judge_f op a got =
   else if mem op [ "shl"; "shr"; "shl_assign"; "shr_assign" ] then judge_call (k FoFinite (x ()) one (n2 ())) got
   else if mem op [ "op_add_int"; "op_mul_int" ] then judge_call (k FoFinite (x ()) (Fin (n2 (), Zar.zero)) Zar.zero) got
   else if op = "op_sub_i32" then judge_call (k FoFinite (x ()) (Fin (n2 (), Zar.zero)) Zar.zero) got
-  else if mem op [ "div"; "op_div"; "op_div_rr"; "op_div_assign" ] then judge_call (k FoDiv (x ()) (y ()) Zar.zero) got
+  else if op = "div" then judge_call (k FoDiv (x ()) (y ()) Zar.zero) got
+  (* operator forms: repr_div at Context::max of the operand precisions, operands not shrunk first *)
+  else if mem op [ "op_div"; "op_div_rr"; "op_div_assign" ] then judge_call (KFloatOpDiv (b, prec, x (), y ())) got
   else if mem op [ "inv"; "v_inv" ] then judge_call (k FoDiv one (x ()) Zar.zero) got
-  else if mem op [ "op_div_int"; "op_div_u8" ] then judge_call (k FoDiv (x ()) (Fin (n2 (), Zar.zero)) Zar.zero) got
-  else if op = "op_int_div" then judge_call (k FoDiv (Fin (n2 (), Zar.zero)) (x ()) Zar.zero) got
+  (* an integer operand becomes FBig::from_parts(n, 0): precision max(1, digits of n) *)
+  else if mem op [ "op_div_int"; "op_div_u8" ] then judge_call (KFloatOpDiv (b, int_prec (n2 ()), x (), Fin (n2 (), Zar.zero))) got
+  else if op = "op_int_div" then judge_call (KFloatOpDiv (b, int_prec (n2 ()), Fin (n2 (), Zar.zero), x ())) got
   else if mem op [ "rem"; "op_rem"; "div_euclid"; "rem_euclid"; "divrem_euclid" ] then judge_call (k FoRem (x ()) (y ()) Zar.zero) got
   else if mem op [ "sqrt"; "v_sqrt" ] then judge_call (k FoSqrt (x ()) one Zar.zero) got
   else if mem op [ "exp"; "exp_m1"; "v_exp"; "v_exp_m1" ] then judge_call (k FoExp (x ()) one Zar.zero) got
@@ -219,6 +224,8 @@ let judge op args got =
   let fam, name = match String.index_opt op '.' with
     | Some i -> (String.sub op 0 i, String.sub op (i + 1) (String.length op - i - 1))
     | None -> ("", op) in
+  (* ownership forms `<op>@<form>` (vv vr rv rr av ar) share the table entry of <op> *)
+  let name = match String.index_opt name '@' with Some i -> String.sub name 0 i | None -> name in
   if got = [ "unknown-op" ] then fail "harness-does-not-know-the-operation"
   else
     match fam with
